@@ -328,7 +328,7 @@ pub fn explore(w: &World, r: usize, cfg: &L1Cfg, check_edge: &(dyn Fn(&Edge) -> 
     res.states = 1;
     let mut violations: HashMap<String, (String, serde_json::Value)> = HashMap::new();
     while !frontier.is_empty() {
-        if std::time::Instant::now() > cfg.deadline || res.states >= cfg.max_states {
+        if std::time::Instant::now() > cfg.deadline || res.states >= cfg.max_states || crate::core::rss_bytes() > (std::env::var("VERIF_RSS_LIMIT_GB").ok().and_then(|s| s.parse().ok()).unwrap_or(24usize) << 30) {
             res.capped = true;
             break;
         }
@@ -346,8 +346,9 @@ pub fn explore(w: &World, r: usize, cfg: &L1Cfg, check_edge: &(dyn Fn(&Edge) -> 
             max_cache: (usize, usize, usize, usize),
         }
         let deadline = cfg.deadline;
+        let rss_limit = std::env::var("VERIF_RSS_LIMIT_GB").ok().and_then(|s| s.parse().ok()).unwrap_or(24usize) << 30;
         let exps: Vec<Option<Exp>> = par_map(frontier.len(), |fi| {
-            if std::time::Instant::now() > deadline {
+            if std::time::Instant::now() > deadline || (fi % 64 == 0 && crate::core::rss_bytes() > rss_limit + (rss_limit >> 2)) {
                 return None;
             }
             let node = &frontier[fi];
